@@ -61,7 +61,7 @@ Definition query_verdict (c : ecase) (qr : assignment * ires) : bool * N :=
   | IErr => if q_supported c q then (false, 14%N) else (true, 0%N)
   | IRes docs hits =>
     if negb (q_supported c q) then (true, 0%N) else
-    match sat_hits (fields_of c) (parsers_of (k_parsers c)) (k_pol c) (map fst (k_docs c)) q with
+    match sat_hits (fields_of c) (parsers_of (k_parsers c)) (k_pol c) pl_docok (map fst (k_docs c)) q with
     | None => (true, 0%N)
     | Some hs =>
       if negb (nodupZ docs) then (false, 15%N)
